@@ -327,7 +327,7 @@ func panicSite(stack string) string {
 // serialised object ser. try returns parsed=false when the parser already
 // rejected the object, accepted=true when verification/decryption returned no
 // error (the violation).
-func tamperAll(c *hl.Ctx, cs caseT, kind, keyPrefix string, ser string, mode int, try func(s string) (parsed, accepted bool, detail string)) {
+func tamperAll(c *hl.Ctx, cs caseT, kind string, keyOf func(field string) string, ser string, mode int, try func(s string) (parsed, accepted bool, detail string)) {
 	if mode == 0 {
 		return
 	}
@@ -341,12 +341,12 @@ func tamperAll(c *hl.Ctx, cs caseT, kind, keyPrefix string, ser string, mode int
 			if mode == 1 && bit%8 != 0 && bit%8 != 7 {
 				continue
 			}
-			tamperOne(c, cs, kind, keyPrefix, ser, o, f, bit, try)
+			tamperOne(c, cs, kind, keyOf, ser, o, f, bit, try)
 		}
 	}
 }
 
-func tamperOne(c *hl.Ctx, cs caseT, kind, keyPrefix string, ser string, o *object, f string, bit int, try func(s string) (bool, bool, string)) {
+func tamperOne(c *hl.Ctx, cs caseT, kind string, keyOf func(field string) string, ser string, o *object, f string, bit int, try func(s string) (bool, bool, string)) {
 	c.Eval()
 	c.Add("tamper_flips", 1)
 	t := o.assemble(f, flip(o.val[f], bit))
@@ -368,7 +368,7 @@ func tamperOne(c *hl.Ctx, cs caseT, kind, keyPrefix string, ser string, o *objec
 	}
 	c.Nontrivial(fmt.Sprintf("t/%s/%s/%d/%s/%s/%d/%v/%s/%s/%d", cs.Part, cs.Alg, cs.Curve*2+cs.KeyVar, cs.Enc, cs.Zip, cs.Size, cs.Nil, cs.Ser, f, bit))
 	if accepted {
-		c.Violation(keyPrefix+"/"+f, fmt.Sprintf("%s %s/%s/%s size %d %s: after flipping bit %d (octet %d, mask %#02x) of the base64url-decoded %q field (%d octets) the object is still accepted with the original key (%s); expected an error. Original object: %s",
+		c.Violation(keyOf(f), fmt.Sprintf("%s %s/%s/%s size %d %s: after flipping bit %d (octet %d, mask %#02x) of the base64url-decoded %q field (%d octets) the object is still accepted with the original key (%s); expected an error. Original object: %s",
 			vc.Part, cs.Alg, cs.Enc, cs.Zip, cs.Size, cs.Ser, bit, bit/8, 0x80>>uint(bit%8), f, len(o.val[f]), detail, short(ser)), vc)
 	}
 }
@@ -454,6 +454,22 @@ func jwsKeyPrefix(cs caseT, fam string) string {
 	return "jws/roundtrip/" + fam
 }
 
+// Tamper violation keys: one per (family, field). For encrypted objects the
+// content-encryption family owns every field except the encrypted key, which
+// belongs to the key-management family.
+func jwsTamperKey(a sigAlgT) func(string) string {
+	return func(f string) string { return "jws/tamper/" + a.family + "/" + f }
+}
+
+func jweTamperKey(a keyAlgT, enc string) func(string) string {
+	return func(f string) string {
+		if f == "encrypted_key" {
+			return "jwe/tamper/" + a.family + "/" + f
+		}
+		return "jwe/tamper/" + encFamily(enc) + "/" + f
+	}
+}
+
 // jwsTry is the tamper oracle for signed objects.
 func jwsTry(pub interface{}) func(s string) (bool, bool, string) {
 	return func(s string) (bool, bool, string) {
@@ -470,9 +486,10 @@ func jwsTry(pub interface{}) func(s string) (bool, bool, string) {
 }
 
 // checkSignedObject runs every oracle clause on a serialised JWS whose
-// payload and algorithm are known. It returns false when a violation was
-// recorded.
-func checkSignedObject(c *hl.Ctx, cs caseT, a sigAlgT, ser string, payload []byte, pub, wrong, other interface{}, wantJWK bool) bool {
+// payload and algorithm are known. roundTrip: the library parsed and verified
+// its input to exactly the payload (the baseline the fault enumeration needs);
+// all: no clause recorded a violation.
+func checkSignedObject(c *hl.Ctx, cs caseT, a sigAlgT, ser string, payload []byte, pub, wrong, other interface{}, wantJWK bool) (roundTrip, all bool) {
 	pre := jwsKeyPrefix(cs, a.family)
 	vc := cs
 	vc.Object = ser
@@ -480,16 +497,16 @@ func checkSignedObject(c *hl.Ctx, cs caseT, a sigAlgT, ser string, payload []byt
 	parsed, err := jose.ParseSigned(ser)
 	if err != nil {
 		c.Violation(pre+"/parse", fmt.Sprintf("%s: ParseSigned rejects the library's own serialisation: %v. Object: %s", desc, err, short(ser)), vc)
-		return false
+		return false, false
 	}
 	got, err := parsed.Verify(pub)
 	if err != nil {
 		c.Violation(pre+"/verify", fmt.Sprintf("%s: Verify with the right key fails: %v. Object: %s", desc, err, short(ser)), vc)
-		return false
+		return false, false
 	}
 	if !bytes.Equal(got, payload) {
 		c.Violation(pre+"/payload", fmt.Sprintf("%s: Verify returned %d octets %s, expected the original payload. Object: %s", desc, len(got), hl.Hex(got), short(ser)), vc)
-		return false
+		return false, false
 	}
 	ok := true
 	if len(parsed.Signatures) != 1 || parsed.Signatures[0].Header.Algorithm != cs.Alg {
@@ -513,7 +530,7 @@ func checkSignedObject(c *hl.Ctx, cs caseT, a sigAlgT, ser string, payload []byt
 	o, err := splitObject("jws", ser)
 	if err != nil {
 		c.Violation("ref/jws-serialisation", fmt.Sprintf("%s: %v. Object: %s", desc, err, short(ser)), vc)
-		return false
+		return true, false
 	}
 	if !bytes.Equal(o.val["payload"], payload) {
 		c.Violation("ref/jws-serialisation/payload", fmt.Sprintf("%s: the payload field decodes to %s", desc, hl.Hex(o.val["payload"])), vc)
@@ -541,7 +558,7 @@ func checkSignedObject(c *hl.Ctx, cs caseT, a sigAlgT, ser string, payload []byt
 		c.Violation("ref/jws-verify/"+a.family, fmt.Sprintf("%s: independent verification over BASE64URL(protected).BASE64URL(payload) fails: %v. Object: %s", desc, err, short(ser)), vc)
 		ok = false
 	}
-	return ok
+	return true, ok
 }
 
 func runJWSCase(c *hl.Ctx, cs caseT) {
@@ -576,12 +593,15 @@ func runJWSCase(c *hl.Ctx, cs caseT) {
 			return
 		}
 		stage = "check"
-		if checkSignedObject(c, cs, a, ser, payload, pub, wrong, other, a.family != "HS") {
+		rt, all := checkSignedObject(c, cs, a, ser, payload, pub, wrong, other, a.family != "HS")
+		if all {
 			c.Nontrivial(fmt.Sprintf("jws/%s/%d/%d/%v/%s", cs.Alg, cs.KeyVar, cs.Size, cs.Nil, cs.Ser))
 			if cs.Size == 17 && cs.KeyVar == 0 {
 				c.Sample(map[string]interface{}{"case": cs, "object": ser})
 			}
-			tamperAll(c, cs, "jws", "jws/tamper/"+a.family, ser, cs.Tamper, jwsTry(pub))
+		}
+		if rt {
+			tamperAll(c, cs, "jws", jwsTamperKey(a), ser, cs.Tamper, jwsTry(pub))
 		}
 	})
 	if pan {
@@ -751,7 +771,7 @@ func wantAAD(cs caseT) []byte {
 	return nil
 }
 
-func checkEncryptedObject(c *hl.Ctx, cs caseT, ser string, payload []byte, priv, wrong, other interface{}, refCheck bool) bool {
+func checkEncryptedObject(c *hl.Ctx, cs caseT, ser string, payload []byte, priv, wrong, other interface{}, refCheck bool) (roundTrip, all bool) {
 	pre := jweKeyPrefix(cs)
 	a := keyAlgByName(cs.Alg)
 	vc := cs
@@ -760,16 +780,16 @@ func checkEncryptedObject(c *hl.Ctx, cs caseT, ser string, payload []byte, priv,
 	parsed, err := jose.ParseEncrypted(ser)
 	if err != nil {
 		c.Violation(pre+"/parse", fmt.Sprintf("%s: ParseEncrypted rejects the library's own serialisation: %v. Object: %s", desc, err, short(ser)), vc)
-		return false
+		return false, false
 	}
 	got, err := parsed.Decrypt(priv)
 	if err != nil {
 		c.Violation(pre+"/decrypt", fmt.Sprintf("%s: Decrypt with the right key fails: %v. Object: %s", desc, err, short(ser)), vc)
-		return false
+		return false, false
 	}
 	if !bytes.Equal(got, payload) {
 		c.Violation(pre+"/plaintext", fmt.Sprintf("%s: Decrypt returned %d octets %s, expected the original plaintext. Object: %s", desc, len(got), hl.Hex(got), short(ser)), vc)
-		return false
+		return false, false
 	}
 	ok := true
 	if ad := parsed.GetAuthData(); !bytes.Equal(ad, wantAAD(cs)) {
@@ -789,18 +809,18 @@ func checkEncryptedObject(c *hl.Ctx, cs caseT, ser string, payload []byte, priv,
 		ok = false
 	}
 	if !refCheck {
-		return ok
+		return true, ok
 	}
 	o, err := splitObject("jwe", ser)
 	if err != nil {
 		c.Violation("ref/jwe-serialisation", fmt.Sprintf("%s: %v. Object: %s", desc, err, short(ser)), vc)
-		return false
+		return true, false
 	}
 	if tl := joseref.TagLen(cs.Enc); len(o.val["tag"]) != tl {
 		// one root cause, one key: the authentication tag / ciphertext split
 		c.Violation("ref/cbc-hmac-tag-length", fmt.Sprintf("%s: the serialised Authentication Tag is %d octets (%s) and the ciphertext %d octets; RFC 7518 5.2.3-5.2.5 fix T_LEN = %d octets for %s and RFC 7516 3.x puts exactly that value in the tag field (here the leading %d octets of the tag travel at the end of the ciphertext field, so any other implementation rejects the object). Object: %s",
 			desc, len(o.val["tag"]), hl.Hex(o.val["tag"]), len(o.val["ciphertext"]), tl, cs.Enc, tl-len(o.val["tag"]), short(ser)), vc)
-		return false
+		return true, false
 	}
 	pt, zlz, err := refDecryptJWE(o, priv)
 	rk := "ref/jwe-decrypt/" + a.family + "/" + encFamily(cs.Enc)
@@ -817,7 +837,7 @@ func checkEncryptedObject(c *hl.Ctx, cs caseT, ser string, payload []byte, priv,
 	} else {
 		c.Add("ref_decryptions", 1)
 	}
-	return ok
+	return true, ok
 }
 
 func runJWECase(c *hl.Ctx, cs caseT) {
@@ -859,12 +879,15 @@ func runJWECase(c *hl.Ctx, cs caseT) {
 			return
 		}
 		stage = "check"
-		if checkEncryptedObject(c, cs, ser, payload, priv, wrong, other, true) {
+		rt, all := checkEncryptedObject(c, cs, ser, payload, priv, wrong, other, true)
+		if all {
 			c.Nontrivial(fmt.Sprintf("jwe/%s/%d/%s/%s/%d/%s", cs.Alg, cs.Curve*2+cs.KeyVar, cs.Enc, cs.Zip, cs.Size, cs.Ser))
 			if cs.Size == 17 && cs.KeyVar == 0 && cs.Zip == "" {
 				c.Sample(map[string]interface{}{"case": cs, "object": ser})
 			}
-			tamperAll(c, cs, "jwe", "jwe/tamper/"+a.family+"/"+encFamily(cs.Enc), ser, cs.Tamper, jweTry(priv))
+		}
+		if rt {
+			tamperAll(c, cs, "jwe", jweTamperKey(a, cs.Enc), ser, cs.Tamper, jweTry(priv))
 		}
 	})
 	if pan {
@@ -915,7 +938,7 @@ func runECDSALoop(c *hl.Ctx, cs caseT) {
 				}
 				vc := cs
 				vc.Extra = fmt.Sprintf("leading zero r=%v s=%v", r0, s0)
-				if checkSignedObject(c, vc, a, ser, payload, pub, wrong, other, true) {
+				if _, all := checkSignedObject(c, vc, a, ser, payload, pub, wrong, other, true); all {
 					c.Nontrivial(fmt.Sprintf("ecdsa-loop/%s/%v/%v", cs.Alg, r0, s0))
 				}
 				seenR = seenR || r0
@@ -1022,7 +1045,7 @@ func runRefJWS(c *hl.Ctx, cs caseT) {
 			return
 		}
 		c.Nontrivial(fmt.Sprintf("refjws/%s/%d/%d/%s", cs.Alg, cs.KeyVar, cs.Size, cs.Extra))
-		tamperAll(c, vc, "jws", "jws/tamper/"+a.family, ser, cs.Tamper, jwsTry(pub))
+		tamperAll(c, vc, "jws", jwsTamperKey(a), ser, cs.Tamper, jwsTry(pub))
 	})
 	if pan {
 		c.Violation("panic/"+panicSite(st), fmt.Sprintf("reference-built %s object: %s. Object: %s", cs.Alg, msg, short(ser)), vc)
@@ -1126,7 +1149,7 @@ func runRefJWE(c *hl.Ctx, cs caseT) {
 			return
 		}
 		c.Nontrivial(fmt.Sprintf("refjwe/%s/%d/%s/%s/%d/%s", cs.Alg, cs.Curve*2+cs.KeyVar, cs.Enc, cs.Zip, cs.Size, cs.Extra))
-		tamperAll(c, vc, "jwe", "jwe/tamper/"+a.family+"/"+encFamily(cs.Enc), ser, cs.Tamper, jweTry(priv))
+		tamperAll(c, vc, "jwe", jweTamperKey(a, cs.Enc), ser, cs.Tamper, jweTry(priv))
 	})
 	if pan {
 		c.Violation("panic/"+panicSite(st), fmt.Sprintf("%s: %s. Object: %s", desc, msg, short(ser)), vc)
@@ -1450,6 +1473,7 @@ func plan(c *hl.Ctx) planT {
 	p := planT{tamperSizesJWS: []int{0, 17}, tamperSizesJWE: []int{0, 17}, scanN: 1024}
 	if c.Thorough() {
 		p.tamperSizesJWS = []int{0, 1, 17, 256}
+		p.tamperSizesJWE = []int{0, 17, 256}
 		p.scanN = 16384
 	}
 	return p
@@ -1472,6 +1496,8 @@ func run(c *hl.Ctx) {
 	}
 	c.Info("ec_keys", ecInfo)
 	pl := plan(c)
+	c.Info("tamper_sizes", map[string][]int{"jws": pl.tamperSizesJWS, "jwe": pl.tamperSizesJWE})
+	c.Info("matrix", map[string]int{"signature_algs": len(sigAlgs), "key_management_algs": len(keyAlgs), "recipients_incl_curves_and_key_variants": len(recipients()), "content_encryptions": len(encs), "jwk_scan_scalars_per_curve": int(pl.scanN)})
 	idx := 0
 	mine := func() bool { idx++; return c.Mine(idx) }
 
@@ -1723,11 +1749,11 @@ func replay(c *hl.Ctx, raw json.RawMessage) {
 		if kind == "jws" {
 			a := sigAlgByName(cs.Alg)
 			_, pub, _, _ := sigKeys(a, cs.KeyVar)
-			tamperOne(c, base, "jws", "jws/tamper/"+a.family, obj, o, cs.Field, cs.Bit, jwsTry(pub))
+			tamperOne(c, base, "jws", jwsTamperKey(a), obj, o, cs.Field, cs.Bit, jwsTry(pub))
 		} else {
 			a := keyAlgByName(cs.Alg)
 			_, priv, _, _ := encKeys(a, cs.Curve, cs.KeyVar, cs.Enc)
-			tamperOne(c, base, "jwe", "jwe/tamper/"+a.family+"/"+encFamily(cs.Enc), obj, o, cs.Field, cs.Bit, jweTry(priv))
+			tamperOne(c, base, "jwe", jweTamperKey(a, cs.Enc), obj, o, cs.Field, cs.Bit, jweTry(priv))
 		}
 		// and the same case on a fresh object
 		if kind == "jws" {
